@@ -14,7 +14,9 @@ import (
 	"fmt"
 	"io"
 	"strings"
+	"sync"
 	"testing"
+	"time"
 
 	"github.com/pinealctx/neptune/store/gormx"
 	"github.com/pinealctx/neptune/ulog"
@@ -31,12 +33,19 @@ func init() { ulog.SetLogLevel(zapcore.FatalLevel + 1) }
 // ---- fake driver
 
 type fakeDB struct {
+	mu         sync.Mutex // database/sql's context watcher rolls back from its own goroutine
 	events     []string
 	failBegin  bool
 	failCommit bool
 	failRollbk bool
 	failExecAt int // 1-based exec number that fails (0 = none)
 	execs      int
+}
+
+func (d *fakeDB) add(e string) {
+	d.mu.Lock()
+	d.events = append(d.events, e)
+	d.mu.Unlock()
 }
 
 var (
@@ -64,20 +73,20 @@ func (c *fakeConn) Begin() (driver.Tx, error) {
 }
 func (c *fakeConn) BeginTx(ctx context.Context, o driver.TxOptions) (driver.Tx, error) {
 	if c.db.failBegin {
-		c.db.events = append(c.db.events, "begin-failed")
+		c.db.add("begin-failed")
 		return nil, errBegin
 	}
-	c.db.events = append(c.db.events, "begin")
+	c.db.add("begin")
 	return &fakeTx{c.db}, nil
 }
 func (c *fakeConn) Ping(context.Context) error { return nil }
 func (c *fakeConn) ExecContext(ctx context.Context, q string, args []driver.NamedValue) (driver.Result, error) {
 	c.db.execs++
 	if c.db.failExecAt == c.db.execs {
-		c.db.events = append(c.db.events, "exec-failed")
+		c.db.add("exec-failed")
 		return nil, errExec
 	}
-	c.db.events = append(c.db.events, "exec")
+	c.db.add("exec")
 	return driver.RowsAffected(1), nil
 }
 
@@ -91,10 +100,10 @@ func (s *fakeStmt) NumInput() int { return -1 }
 func (s *fakeStmt) Exec(args []driver.Value) (driver.Result, error) {
 	s.db.execs++
 	if s.db.failExecAt == s.db.execs {
-		s.db.events = append(s.db.events, "exec-failed")
+		s.db.add("exec-failed")
 		return nil, errExec
 	}
-	s.db.events = append(s.db.events, "exec")
+	s.db.add("exec")
 	return driver.RowsAffected(1), nil
 }
 func (s *fakeStmt) Query(args []driver.Value) (driver.Rows, error) { return emptyRows{}, nil }
@@ -109,18 +118,18 @@ type fakeTx struct{ db *fakeDB }
 
 func (t *fakeTx) Commit() error {
 	if t.db.failCommit {
-		t.db.events = append(t.db.events, "commit-failed")
+		t.db.add("commit-failed")
 		return errCommit
 	}
-	t.db.events = append(t.db.events, "commit")
+	t.db.add("commit")
 	return nil
 }
 func (t *fakeTx) Rollback() error {
 	if t.db.failRollbk {
-		t.db.events = append(t.db.events, "rollback-failed")
+		t.db.add("rollback-failed")
 		return errRollback
 	}
-	t.db.events = append(t.db.events, "rollback")
+	t.db.add("rollback")
 	return nil
 }
 
@@ -144,7 +153,7 @@ func drawC18(rt *rapid.T) interface{} {
 	n := rapid.IntRange(0, hx.Pick(5, 8)).Draw(rt, "nsteps")
 	for i := 0; i < n; i++ {
 		sc.Steps = append(sc.Steps, step{
-			Kind:  rapid.SampledFrom([]string{"ok", "ok", "ok", "exec", "exec", "err", "panic", "panic", "panicnil", "panicerr"}).Draw(rt, "kind"),
+			Kind:  rapid.SampledFrom([]string{"ok", "ok", "ok", "exec", "exec", "err", "panic", "panic", "panicnil", "panicerr", "cancelctx"}).Draw(rt, "kind"),
 			Group: rapid.SampledFrom([]int{0, 0, 1, 2}).Draw(rt, "group"),
 		})
 	}
@@ -170,6 +179,19 @@ func runC18(t *testing.T, sci interface{}, keepLog bool) *hx.Outcome {
 		o.Class, o.Msg = "machinery", "gorm.Open on the fake driver failed: "+err.Error()
 		return o
 	}
+	// a handle that carries a cancellable context: cancelling it makes database/sql roll the transaction back on its own
+	cctx, cancel := context.WithCancel(context.Background())
+	defer cancel()
+	cancelAt := -1
+	for i, st := range sc.Steps {
+		if st.Kind == "cancelctx" {
+			cancelAt = i
+			break
+		}
+	}
+	if cancelAt >= 0 {
+		gdb = gdb.WithContext(cctx)
+	}
 	fdb.events = nil
 	fdb.execs = 0
 
@@ -179,7 +201,7 @@ func runC18(t *testing.T, sci interface{}, keepLog bool) *hx.Outcome {
 	mk := func(i int, s step) gormx.GormProcFn {
 		return func(txn *gorm.DB) error {
 			ran = append(ran, i)
-			fdb.events = append(fdb.events, fmt.Sprintf("step%d", i))
+			fdb.add(fmt.Sprintf("step%d", i))
 			switch s.Kind {
 			case "err":
 				e := &stepErr{i}
@@ -187,6 +209,24 @@ func runC18(t *testing.T, sci interface{}, keepLog bool) *hx.Outcome {
 				return e
 			case "panic":
 				panic(fmt.Sprintf("step %d blew up", i))
+			case "cancelctx":
+				if i == cancelAt {
+					cancel()
+					// wait until database/sql's watcher goroutine has rolled the transaction back (real time, bounded)
+					for k := 0; k < 2000; k++ {
+						fdb.mu.Lock()
+						n := len(fdb.events)
+						last := ""
+						if n > 0 {
+							last = fdb.events[n-1]
+						}
+						fdb.mu.Unlock()
+						if last == "rollback" || last == "rollback-failed" {
+							break
+						}
+						time.Sleep(time.Millisecond)
+					}
+				}
 			case "panicnil":
 				var nothing interface{}
 				panic(nothing) // a panic all the same (recover() returns nil for it under the repository's go 1.19 language level)
@@ -252,9 +292,13 @@ func runC18(t *testing.T, sci interface{}, keepLog bool) *hx.Outcome {
 	for i, s := range sc.Steps {
 		bad := s.Kind == "err" || strings.HasPrefix(s.Kind, "panic")
 		if s.Kind == "exec" {
-			execN++
-			if sc.FailExecAt == execN {
-				bad = true
+			if cancelAt >= 0 && i > cancelAt {
+				bad = true // the transaction is gone: the statement fails without reaching the driver
+			} else {
+				execN++
+				if sc.FailExecAt == execN {
+					bad = true
+				}
 			}
 		}
 		if bad {
@@ -300,7 +344,16 @@ func runC18(t *testing.T, sci interface{}, keepLog bool) *hx.Outcome {
 				fail("wrong-steps-ran", "steps ran out of order: %v", ran)
 			}
 		}
-		if firstFail < 0 {
+		if firstFail < 0 && cancelAt >= 0 {
+			// every step returned nil but the context ended meanwhile: database/sql rolled back, the commit cannot succeed
+			o.Counts["context-cancelled-before-commit"]++
+			if ret == nil {
+				fail("commit-failure-swallowed", "the handle's context was cancelled during step %d and the transaction was rolled back by database/sql, yet Transact returned nil", cancelAt)
+			}
+			if commits != 0 || rollbacks != 1 {
+				fail("not-finished-exactly-once", "context cancelled: expected the driver to see one rollback and no commit, saw %d rollback(s), %d commit(s)", rollbacks, commits)
+			}
+		} else if firstFail < 0 {
 			o.Counts["all-steps-ok"]++
 			if commits != 1 {
 				fail("no-commit-after-success", "every step succeeded, expected a commit, saw %d commit(s) and %d rollback(s)", commits, rollbacks)
@@ -367,7 +420,7 @@ func TestC18(t *testing.T) {
 		Stubs:       []string{"database/sql/driver (in-process fake: records begin/commit/rollback/exec, fails begin, commit, rollback or the n-th exec on demand)"},
 		Rule: "scenario = 0-5 steps, each succeeding, returning an error, panicking or executing a statement through the transaction (the n-th exec may fail), optionally wrapped in Combine groups, x begin / commit / rollback each failing or not; " +
 			"oracle over the driver's event log and the returned error; non-trivial = >=1 step; distinct = distinct (step kinds, grouping, fault flags, driver event sequence)",
-		Probes:      []string{"all-steps-ok", "begin-failure", "commit-failure", "rollback-failure", "step-failure-err", "step-failure-exec", "step-failure-panic", "step-failure-panicnil", "step-failure-panicerr"},
+		Probes:      []string{"all-steps-ok", "begin-failure", "commit-failure", "rollback-failure", "step-failure-err", "step-failure-exec", "step-failure-panic", "step-failure-panicnil", "step-failure-panicerr", "context-cancelled-before-commit"},
 		Assumptions: []string{"runs outside the synctest bubble (database/sql has goroutines and real mutexes of its own); no schedule is involved"},
 	})
 }
